@@ -237,7 +237,7 @@ func main() {
 	run := common.NewRun("C12")
 	run.Res.Rule = "cases = complete Go programs whose only statement of main prints a marker (package variable initialiser, init and main each print): " +
 		"(a) operator × reflect-kind table probes; (b) one check site per program over the fragment's type universe × every context (binary, comparison, shift, unary, receive, declaration, assignment, conversion, send, index, op-assignment, argument, return, condition, arity), full product in the thorough tier (operator-expression sources: 40 % of the type pairs), seeded sample in the quick tier; " +
-		"(c) seeded type-directed well-typed programs of the fragment × every applicable single-point mutation of the catalogue at every site; (d) hand-written seed programs × text-level mutations for the checks outside the fragment (composite literals, builtins, fields, methods, interfaces, declarations); (e) pipeline cases (entry points, imported source package). " +
+		"(b') array and slice literals: every list of up to three (thorough: four) keyed / positional elements over keys -1..3 for a slice type and array types of length 0..3, answered by the Lean index rule; (c) seeded type-directed well-typed programs of the fragment × every applicable single-point mutation of the catalogue at every site; (d) hand-written seed programs × text-level mutations for the checks outside the fragment (composite literals, builtins, fields, methods, interfaces, declarations); (e) pipeline cases (entry points, imported source package). " +
 		"Every program is type-checked by go/types (original must pass, mutant must fail), compiled and evaluated by the interpreter under recover, and (a,b,c) sent to the Lean model and specification. non-trivial = an ill-typed program (mutant or probe the reference rejects) or a generated original; distinct = distinct source text"
 	defer run.Finish()
 	drv, err := common.StartDriver("C12")
@@ -311,6 +311,16 @@ func main() {
 			j = len(pc)
 		}
 		h.process(pc[i:j])
+	}
+
+	// (b') array and slice literals: keyed and positional elements
+	al := arrayLitCases(rand.New(rand.NewSource(run.Rng.Int63())), run.Thorough())
+	for i := 0; i < len(al); i += 4000 {
+		j := i + 4000
+		if j > len(al) {
+			j = len(al)
+		}
+		h.process(al[i:j])
 	}
 
 	// (c) generated programs × mutation catalogue
